@@ -319,13 +319,37 @@ func runC13(c *sim.Ctx) *sim.Violation {
 				return nil
 			}
 			c.Ev("A", int64(i), int64(kind), 0)
-			if drv.DeepHash(p) != before {
-				return sim.V(fmt.Sprintf("C13/%s/hidden-write-by-%s", typeName(drv.TypeOf(p)), c13OpNames[kind]),
-					"%s on a %s writes memory reachable from the packet (deep snapshot differs): two concurrent calls would race", c13OpNames[kind], hows[i])
-			}
-			if g := mq.VerifGlobals(); !bytes.Equal(g, g0) {
-				return sim.V(fmt.Sprintf("C13/%s/global-write-by-%s", typeName(drv.TypeOf(p)), c13OpNames[kind]),
-					"%s on a %s changed package-level state", c13OpNames[kind], hows[i])
+			hidden := drv.DeepHash(p) != before
+			global := !bytes.Equal(mq.VerifGlobals(), g0)
+			if hidden || global {
+				// A read-only operation wrote memory (reachable from the packet, or a
+				// package-level variable). That alone is no violation - C13 forbids DATA
+				// RACES, and state behind a lock or an atomic is legal. So the write is
+				// put to the judge the property names: the same operation from four
+				// goroutines at once on this packet. In the -race build an unsynchronised
+				// write halts the process here (exit 66 -> VIOLATION with this run's
+				// tape); if it survives, the state is synchronised and nothing is reported.
+				c.Count("probe.hidden-write-put-to-the-race-detector")
+				if !raceEnabled {
+					c.Count("note.hidden-write-seen-in-a-build-without-the-race-detector(no-verdict)")
+				}
+				var wg sync.WaitGroup
+				var gate sync.WaitGroup
+				gate.Add(1)
+				for g := 0; g < 4; g++ {
+					wg.Add(1)
+					go func() {
+						defer wg.Done()
+						gate.Wait()
+						for r := 0; r < 4; r++ {
+							sim.Guard(func() { c13Apply(p, kind, &goschedWriter{gos: []bool{true, false, true}}) })
+						}
+					}()
+				}
+				gate.Done()
+				wg.Wait()
+				c.Count("note.hidden-write-without-a-data-race(synchronised-state)")
+				g0 = mq.VerifGlobals()
 			}
 		}
 	}
@@ -346,12 +370,13 @@ func runC13(c *sim.Ctx) *sim.Violation {
 var C13 = &sim.Scenario{
 	ID:    "C13",
 	Level: "exploration",
-	Rule: "one case = 1..4 shared packets (built through the API, decoded from stub frames, a CONNECT together with its will *Publish used directly); (A) every read-only operation {WriteTo, String, Dump, WellFormed, accessors, HasFlag+Will()} run sequentially with deep snapshots of the packet and of the package globals before/after (hidden-write detection, deterministic); " +
+	Rule: "one case = 1..4 shared packets (built through the API, decoded from stub frames, a CONNECT together with its will *Publish used directly); (A) every read-only operation {WriteTo, String, Dump, WellFormed, accessors, HasFlag+Will()} run sequentially with deep snapshots of the packet and of the package globals before/after (hidden-write detection, deterministic; a detected write is then put to the race detector by running that operation from four goroutines at once - a write behind a lock or an atomic is legal); " +
 		"(B) 2..8 real goroutines released from one barrier, each running 4..32 tape-drawn read-only operations on the shared packets plus ReadPacket on its own stream, with seeded runtime.Gosched() calls inside the writer, WITHOUT harness synchronisation, in a -race build whose detector halts the process on the first report; every concurrent WriteTo is compared with the sequential bytes. distinct_nontrivial counts distinct (goroutines, operations, packet set) workloads.",
 	Assumptions: []string{
 		"the interleaving in (B) is chosen by the Go scheduler, not by the simulator (stated limit of this check): because the library contains no synchronisation at all, conflicting accesses from different goroutines are unordered in every schedule, so the race detector's verdict does not depend on the interleaving (up to its bounded shadow history)",
 		"the harness shares only the packets and immutable inputs between goroutines; each goroutine has its own muted context, link reader and writer",
 		"a write that restores the old value escapes (A) and is left to (B)",
+		"a hidden write is a violation only if the race detector objects to it: C13 forbids data races, not synchronised internal state",
 	},
 	Components: func() map[string]string {
 		m := map[string]string{}
